@@ -226,7 +226,8 @@ def make_case(seed, shard, i):
     # an earlier print on the same line that also resolves $.csvpath references, then a component that changes run
     # state (fail()) before the print under test: "the value current at that point of that line"
     prelude = r.random() < 0.3
-    return {"chunks": chunks, "arr": arr, "qual": qual, "rows": rows, "gate": gate, "target": target, "prelude": prelude}
+    no_default = r.random() < 0.25
+    return {"no_default": no_default, "chunks": chunks, "arr": arr, "qual": qual, "rows": rows, "gate": gate, "target": target, "prelude": prelude}
 
 
 def run_case(case, agg):
@@ -241,7 +242,8 @@ def run_case(case, agg):
     tgt = f', "{target}"' if target else ""
     stream = target or "default"
     pre = 'print("at $.csvpath.line_number: $.csvpath.valid $.csvpath.count_matches", "pre") #2 == "C" -> fail() ' if case.get("prelude") else ""
-    prog = f'~ owner: team-a note: v1 id: pr1 ~ $pr.csv[1*][@x = #a @n = count_lines() @t.k = #d @z.k = mod(count_lines(), 2) @z.b = equals(#a, "A1") @z.e = #b @yr.2023 = #d push("st", #b) push("st", #a) {pre}{pq}("{tmpl}"{tgt}) {gate}]'
+    pm = "print-mode: no-default " if case.get("no_default") else ""  # (only the standard-out printer is switched off)
+    prog = f'~ owner: team-a note: v1 id: pr1 {pm}~ $pr.csv[1*][@x = #a @n = count_lines() @t.k = #d @z.k = mod(count_lines(), 2) @z.b = equals(#a, "A1") @z.e = #b @yr.2023 = #d push("st", #b) push("st", #a) {pre}{pq}("{tmpl}"{tgt}) {gate}]'
     c, cap = env.new_csvpath(["collect", "print"])
     cap2 = env.CapturePrinter()
     c.add_printer(cap2)
@@ -310,7 +312,7 @@ def run_case(case, agg):
 
 def shape_of(case):
     kinds = "".join("T" if c[0] == "text" else ("." if c[0] == "dot" else "R" + c[1][0] + ("k" if c[3] else "")) for c in case["chunks"])
-    return f"{case['arr']}|{kinds}|{case['qual']}|{bool(case['gate'])}|{case.get('target')}|{case.get('prelude')}"
+    return f"{case['arr']}|{kinds}|{case['qual']}|{bool(case['gate'])}|{case.get('target')}|{case.get('prelude')}|{case.get('no_default')}"
 
 
 def run_one(case, agg):
